@@ -502,7 +502,13 @@ ForExprClause(which, inFn) ==
       sts == <<VarS("x", I(0)), outer, PV(2, Id("x"))>>
   IN IF inFn THEN <<VarS("run", FuncE("", <<>>, sts \o <<Ret(Id("x"))>>)), PV(3, CallE(Id("run"), <<>>)), ES(I(0))>>
      ELSE sts \o <<ES(I(0))>>
-DeferProgs(u) == {DeferTwice(ks) : ks \in (DeferKinds \X DeferKinds)} \cup {ForNoInit(b) : b \in BOOLEAN} \cup
+\* a call that ends with a recovered Go panic (1 / 0) still runs its deferred calls; an error raised by one of them
+\* does not replace the panic (it does replace an ordinary error)
+DeferUnderPanic(bodyPanics, deferRaises) ==
+  LET d == DeferS(CallE(FuncE("", <<>>, <<P(7)>> \o (IF deferRaises THEN <<ES([k |-> "idx", a |-> ListE(<<I(2)>>), b |-> I(5)])>> ELSE <<>>)), <<>>))
+      fail == IF bodyPanics THEN Ret(Bin("/", I(1), Id("z"))) ELSE Ret([k |-> "idx", a |-> ListE(<<>>), b |-> I(1)])
+  IN <<VarS("f", FuncE("", <<Param("z")>>, <<d, P(8), fail>>)), PV(1, CallE(Id("f"), <<I(0)>>)), ES(I(0))>>
+DeferProgs(u) == {DeferUnderPanic(a, b) : a \in BOOLEAN, b \in BOOLEAN} \cup {DeferTwice(ks) : ks \in (DeferKinds \X DeferKinds)} \cup {ForNoInit(b) : b \in BOOLEAN} \cup
                  {ForExprClause(w, b) : w \in {"init", "post"}, b \in BOOLEAN} \cup TryChains(0) \cup EqAssigns(0) \cup
                  {DeferProg(ks, r) : ks \in (DeferKinds \X DeferKinds) \cup (DeferKinds \X DeferKinds \X DeferKinds), r \in BOOLEAN}
 
